@@ -97,9 +97,13 @@ def second_on_replica(run, r, res):
             bad.append("after replicate %s: inserted atom %d has fractional coordinates %s in the new cell" % (f, i, np.round(fr[i], 4).tolist()))
             break
     for i in hs:
-        d = FG.min_image_dist(cell, inv, pos[i], pos[i - 1])        # its own partner: the Rn appended just before it
+        # its own partner is the Rn appended just before it; some lattice image of it must be exactly 1 A away (in a cell narrower
+        # than 2 A that need not be the nearest image)
+        dv = pos[i] - pos[i - 1]
+        d = min((abs(np.linalg.norm(dv + np.array([a, b, c]) @ cell) - 1.0), np.linalg.norm(dv + np.array([a, b, c]) @ cell))
+                for a in range(-3, 4) for b in range(-3, 4) for c in range(-3, 4))[1]
         if abs(d - 1.0) > 1e-5:
-            bad.append("after replicate %s: inserted H %d is %.4f A (minimum image in the new cell) from the Rn inserted with it, the replacement pattern says 1.0" % (f, i, d))
+            bad.append("after replicate %s: inserted H %d has no lattice image 1.0 A from the Rn inserted with it (closest to that: %.4f A), the replacement pattern says 1.0" % (f, i, d))
             break
     return bad
 
